@@ -357,11 +357,7 @@ func printers(c *hc.Ctx) {
 			} else if got, err := interpOps(ts, false); err != nil {
 				fail(c, "topdf-syntax", "ToPDF does not interpret: "+err.Error(), map[string]any{"path": p.String(), "topdf": pdf})
 			} else {
-				if carryArtefact(pdf) == "" {
-					c.Case("PDF "+tolNum+" "+hc.DataHex(q.Data())+" |"+opTokString(ts), "=", "ok")
-				} else {
-					c.Count("skip:lean-judge:dec-nines-carry") // judged exactly by the DEC lines
-				}
+				c.Case("PDF "+tolNum+" "+hc.DataHex(q.Data())+" |"+opTokString(ts), "=", "ok")
 				if extreme {
 					// needle-shaped arcs (radii ratio above 1e6) are flattened to lines by ReplaceArcs
 					c.Count("skip:topdf-needle-arc")
@@ -380,11 +376,7 @@ func printers(c *hc.Ctx) {
 			} else if err != nil {
 				fail(c, "tops-syntax", "ToPS does not interpret: "+err.Error(), map[string]any{"path": p.String(), "data_hex": dataHex, "tops": ps})
 			} else {
-				if carryArtefact(ps) == "" {
-					c.Case("PS "+tolNum+" "+dataHex+" |"+opTokString(ts), "=", "ok")
-				} else {
-					c.Count("skip:lean-judge:dec-nines-carry")
-				}
+				c.Case("PS "+tolNum+" "+dataHex+" |"+opTokString(ts), "=", "ok")
 				if bad, _ := sameGeometry(want, got, absDec, absDec); bad != "" {
 					if tok := carryArtefact(ps); tok != "" {
 						fail(c, "tops-decode:dec-nines-carry", "ToPS prints "+tok+": "+bad, map[string]any{"path": p.String(), "tops": ps, "class": "dec-nines-carry"})
@@ -708,7 +700,8 @@ func sameStructure(want, got []gseg, rel, abs float64) string {
 }
 
 // carryArtefact returns the first operand of the form 1, zeros, trailing dot ("10.", "-1000."): the
-// signature of dec's nines-carry defect (dec prints no trailing dot otherwise).
+// signature of dec's nines-carry defect repaired by d74a0aa (dec prints no trailing dot otherwise);
+// kept so that a regression is reported under its own kind.
 func carryArtefact(ops string) string {
 	for _, w := range strings.Fields(ops) {
 		t := strings.TrimPrefix(w, "-")
